@@ -34,9 +34,30 @@ def check_spec(sfs):
     return None, "ok"
 
 
+PERM_MAX_SRC = 4  # every arrangement of the initial stack is tried up to this many words (5 after a give-up)
+
+
+def arrangements(sfs, status):
+    """The same specification started from every other arrangement of its initial stack.  Taken for specifications
+    on which the greedy gave up (its own final check rejected what it built: one arrangement away the wrong sequence
+    may pass) and for specifications that declare an order between memory/storage operations."""
+    src = list(sfs["src_ws"])
+    n = len(src)
+    if n < 2 or len(set(map(str, src))) != n:
+        return
+    if not (status == "gave-up" and n <= PERM_MAX_SRC + 1) and not (sfs.get("dependencies") and n <= PERM_MAX_SRC):
+        return
+    for perm in itertools.permutations(src):
+        if list(perm) == src:
+            continue
+        s2 = copy.deepcopy(sfs)
+        s2["src_ws"] = list(perm)
+        yield s2
+
+
 def work(ctx, unit):
     kind, payload = unit
-    out = {"specs": 0, "ok": 0, "gave_up": 0, "viol": None, "raised": None, "nontrivial": 0}
+    out = {"specs": 0, "ok": 0, "gave_up": 0, "viol": None, "raised": None, "nontrivial": 0, "arranged": 0}
     if kind == "block":
         try:
             specs, _ = driver.specs_for(ctx, payload, name=NAME)
@@ -57,11 +78,24 @@ def work(ctx, unit):
                 out["nontrivial"] += 1
         elif status == "gave-up":
             out["gave_up"] += 1
+        spec = sfs
+        if not v and kind == "block":
+            for s2 in arrangements(sfs, status):
+                out["arranged"] += 1
+                v, st2 = check_spec(s2)
+                if st2 == "gave-up":
+                    out["gave_up"] += 1
+                elif st2 == "ok":
+                    out["ok"] += 1
+                if v:
+                    v["arranged_from"] = list(sfs["src_ws"])
+                    spec = s2
+                    break
         if v:
             v["config"] = list(ctx.cfg)
-            v["kind"] = kind
+            v["kind"] = kind if spec is sfs else "arranged"
             v["block"] = B.to_text(payload) if kind == "block" else None
-            v["spec"] = sfs
+            v["spec"] = spec
             out["viol"] = v
             break
     return out
@@ -72,8 +106,21 @@ def signature(v):
     return "%s;%s;ops=[%s];nsrc=%d" % (v["clause"][0], v["kind"], ",".join(ops), min(len(v["spec"]["src_ws"]), 17))
 
 
+def crossfeed_family(tier):
+    """Words over the loads and stores with every operand taken from the stack: load results feed the next operation,
+    so memory and storage orderings interlock (this is where the greedy's merge heuristic goes wrong and its final
+    dependency check has to reject the sequence)."""
+    ops = ["SLOAD", "MLOAD", "MSTORE", "SSTORE", "MSTORE8", "KECCAK256"]
+    out = []
+    for n in ((3, 4) if tier == "quick" else (3, 4, 5)):
+        for w in itertools.product(ops[:4] if n >= 4 and tier == "quick" else ops, repeat=n):
+            out.append([B.I(o) for o in w])
+    return out
+
+
 def unit_sets(tier):
     cfgs = [("-greedy",), ("-storage", "-greedy"), ("-partition", "-greedy")]
+    yield "crossfeed-family", [("block", b) for b in crossfeed_family(tier)], cfgs[:1] if tier == "quick" else cfgs
     if tier == "quick":
         yield "tree(CORE,3)", [("block", b) for b in B.tree(B.CORE, 3)], cfgs
         yield "tree(MIXED,3)", [("block", b) for b in B.tree(B.MIXED, 3)], cfgs
@@ -97,10 +144,12 @@ def unit_sets(tier):
 def main(tier, seed, only=None):
     chk = report.Check("C04", "exploration", tier, seed)
     chk.cov["rule"] = ("specifications from the real front-end on enumerated blocks x 3 split policies, plus "
-                       "hand-enumerated and deep-stack specifications; greedy_from_json is run on each and, when it "
+                       "hand-enumerated and deep-stack specifications, plus every other arrangement of the initial stack "
+                       "(<= 4 words, 5 after a give-up) of each front-end specification that declares an order between "
+                       "memory/storage operations or on which the greedy gave up; greedy_from_json is run on each and, when it "
                        "reports success, its id sequence is executed on the symbolic stack machine (E3); non-trivial "
                        "= successful runs on specifications with at least two instructions")
-    tot = {"specs": 0, "ok": 0, "gave_up": 0, "raised": 0, "budget": 0, "nontrivial": 0}
+    tot = {"specs": 0, "ok": 0, "gave_up": 0, "raised": 0, "budget": 0, "nontrivial": 0, "arranged": 0}
     sets = {}
 
     def on_result(cfg, unit, status, value):
@@ -108,8 +157,8 @@ def main(tier, seed, only=None):
         if status != "ok":
             tot["budget"] += 1
             return
-        for k in ("specs", "ok", "gave_up", "nontrivial"):
-            tot[k] += value[k]
+        for k in ("specs", "ok", "gave_up", "nontrivial", "arranged"):
+            tot[k] += value.get(k, 0)
         if value["raised"]:
             tot["raised"] += 1
         if value["viol"]:
@@ -124,7 +173,7 @@ def main(tier, seed, only=None):
         tasks = [(cfg, ch) for cfg in cs for ch in pool.chunks(units, max(300, len(units) // 16 + 1))]
         pool.run_tasks(tasks, work, setup=driver.setup_ctx, unit_timeout=20, on_result=on_result)
     chk.cov.update({"sets": sets, "specifications": tot["specs"], "greedy_success": tot["ok"],
-                    "greedy_gave_up": tot["gave_up"], "frontend_raised": tot["raised"],
+                    "greedy_gave_up": tot["gave_up"], "rearranged_initial_stacks": tot["arranged"], "frontend_raised": tot["raised"],
                     "skipped_budget": tot["budget"], "distinct_nontrivial": tot["nontrivial"]})
     if not chk.cov["samples"]:
         chk.sample({"note": "see sets"})
